@@ -276,6 +276,7 @@ pub fn judged_pass(ctx: &mut Ctx, label: &str, full: &[u32], d1: usize, red: &[u
         fn go(ctx: &mut Ctx, label: &str, grid: &[u32], script: Vec<u32>, used: usize, from: usize, max_dev: usize, run: &mut dyn FnMut(&mut Ctx, &[u32]) -> RunOut) {
             let id = ctx.next_id;
             ctx.next_id += 1;
+            ctx.mark_case(id);
             let mine = match ctx.only {
                 Some(o) => o == id,
                 None => (id as usize) % ctx.nshards == ctx.shard,
